@@ -216,22 +216,49 @@ def fetch_width_rule(ctx, R3, X=None):
     X = X or x86model(ctx)
     arch, E = X.arch, X.env
     dis = arch.method('x86_mn', '_dis')
-    # prefix toggles
-    for pfx, attr in ((0x66, 'self.opmode'), (0x67, 'self.admode')):
-        hit = None
-        for n in walk_no_nested(dis):
-            if isinstance(n, ast.If) and isinstance(n.test, ast.Compare) and isinstance(n.test.left, ast.Constant) and n.test.left.value == pfx \
-                    and isinstance(n.test.ops[0], ast.In) and u(n.test.comparators[0]) == 'read_prefix':
-                for s in n.body:
-                    if isinstance(s, ast.Assign) and u(s.targets[0]).startswith('self.'):
-                        hit = s
-        inst = 'prefix %02X' % pfx
-        if hit is None:
-            R3.violation(inst, 'mode:prefix:%02X:none' % pfx, 'prefix %02X no longer toggles a mode in _dis' % pfx, where(arch, dis))
-        elif u(hit.targets[0]) == attr and u(hit.value).replace(' ', '') == '[u16,u32][%s==u16]' % attr:
-            R3.ok(inst, sample='%02X toggles %s' % (pfx, attr))
-        else:
-            R3.violation(inst, 'mode:prefix:%02X:%s' % (pfx, norm(hit)), 'prefix %02X must toggle %s between u16 and u32; found %s' % (pfx, attr, norm(hit)), where(arch, hit))
+    # prefix toggles: the statements of _dis that set self.opmode / self.admode from the prefixes read are evaluated on prefix lists.  An override switches
+    # the default size once, however often the prefix occurs and whatever stands between two occurrences.
+    from ..consteval import Evaluator as _Ev, Obj as _Obj, NotConst as _NC, PyRaise as _PR
+    afs_ = X.afs
+    stmts = []
+    for n in walk_no_nested(dis):
+        if isinstance(n, (ast.If, ast.For)) and 'read_prefix' in u(n.test if isinstance(n, ast.If) else n.iter) \
+                and any(isinstance(a, ast.Assign) and u(a.targets[0]) in ('self.opmode', 'self.admode') for a in ast.walk(n)):
+            par = parent(n)
+            # top-most such statement only
+            if not any(n is not s_ and any(n is x for x in ast.walk(s_)) for s_ in stmts):
+                stmts.append(n)
+    stmts = [s_ for s_ in stmts if not any(s_ is not t_ and any(s_ is x for x in ast.walk(t_)) for t_ in stmts)]
+    if not stmts:
+        R3.violation('prefix 66 / 67', 'mode:prefix:none', 'no statement of _dis sets self.opmode / self.admode from the prefixes read', where(arch, dis))
+    else:
+        stmts.sort(key=lambda s_: s_.lineno)
+        other = {afs_.u16: afs_.u32, afs_.u32: afs_.u16}
+        for pl in ([], [0x66], [0x67], [0x66, 0x67], [0x66, 0x66], [0x67, 0x67], [0x66, 0x2E, 0x66], [0x67, 0x66, 0x67], [0xF3, 0x66], [0x2E]):
+            for mode0 in (afs_.u32, afs_.u16):
+                me = _Obj('self')
+                me.opmode, me.admode = mode0, mode0
+                m_ = _Obj('m')
+                m_.name, m_.opc = 'add', [0]
+                scope = dict((k_, v_) for k_, v_ in E.items() if isinstance(v_, (str, int, bool, list, tuple, dict)) or v_ is None)
+                scope.update({'x86_afs': afs_})
+                loc = {'self': me, 'read_prefix': list(pl), 'm': m_}
+                inst = 'prefixes [%s], default size %s' % (' '.join('%02x' % b for b in pl), mode0)
+                try:
+                    _Ev(scope).exec_stmts(stmts, loc)
+                except _PR as e:
+                    R3.violation(inst, 'mode:prefix:raises:%s' % e.exc_name, 'the mode selection of _dis raises %s on %s' % (e.exc_name, inst), where(arch, stmts[0]))
+                    continue
+                except _NC as e:
+                    raise AnalysisError('_dis: the prefix/mode statements are outside the evaluable subset: %s' % e)
+                want_op = other[mode0] if 0x66 in pl else mode0
+                want_ad = other[mode0] if 0x67 in pl else mode0
+                if (me.opmode, me.admode) == (want_op, want_ad):
+                    R3.ok(inst, nontrivial=(len(pl) > 1))
+                else:
+                    R3.violation(inst, 'mode:prefix:%s' % '-'.join('%02x' % b for b in pl if b in (0x66, 0x67)), '%s: _dis ends with operand size %s, address size %s; IA-32: %s, %s '
+                                 '(an override switches the default once, however often the prefix is repeated)' % (inst, me.opmode, me.admode, want_op, want_ad), where(arch, stmts[0]),
+                                 witness='66 66 e8 00 80 is call rel16 (5 bytes); with the prefix toggling per occurrence it is read as call rel32')
     WANT = []
     for n in walk_no_nested(dis):
         if isinstance(n, ast.Call) and u(n.func) == 'x86mndb.get_afs' and len(n.args) == 3:
@@ -324,6 +351,7 @@ def fetch_width_rule(ctx, R3, X=None):
             for adm in ('u32', 'u16'):
                 me = Obj('self')
                 me.opmode, me.admode = names[opm], names[adm]
+                me.mnemo_mode = names['u32']         # the default size of the mode: 0x66 toggles opmode, never this
                 scope = dict(names)
                 scope.update({'self': me, 'dib': names[tok], 'x86_afs': A})
                 ev_ = Evaluator({})
@@ -380,14 +408,23 @@ def fetch_width_rule(ctx, R3, X=None):
                              % (tok, fmt, cnt, FMT[tok][0], FMT[tok][1]), where(arch, call))
     if n_tok < 4:
         raise AnalysisError('get_afs: only %d displacement token branches found' % n_tok)
-    # get_afs: table per mode
+    # get_afs: table per mode -- the statements that choose the ModRM table are evaluated for every address mode
+    from ..consteval import Evaluator as _Ev2, Obj as _Obj2, Native as _Nat2, NotConst as _NC2, PyRaise as _PR2
     pairs = {}
-    for n in ast.walk(ga):
-        if isinstance(n, ast.If) and isinstance(n.test, ast.Compare) and u(n.test.left) == 'size_m':
-            mode = u(n.test.comparators[0])
-            for s in n.body:
-                if isinstance(s, ast.Assign) and u(s.targets[0]) == 'db_afs':
-                    pairs[mode] = u(s.value)
+    chooser = [st for st in ga.body if isinstance(st, ast.If) and 'size_m' in u(st.test)]
+    if not chooser:
+        raise AnalysisError('get_afs: the statement that chooses the ModRM table by size_m was not found')
+    for mode_name in ('u16', 'u32', 'mm', 'xmm'):
+        me_ = _Obj2('self')
+        me_.db_afs_16, me_.db_afs, me_.db_afs_mm, me_.db_afs_xmm = 'self.db_afs_16', 'self.db_afs', 'self.db_afs_mm', 'self.db_afs_xmm'
+        scope_ = dict((k_, v_) for k_, v_ in E.items() if isinstance(v_, (str, int, bool, list, tuple, dict)) or v_ is None)
+        scope_.update({'x86_afs': X.afs, 'uint16': _Nat2(lambda v: v), 'uint32': _Nat2(lambda v: v)})
+        loc_ = {'self': me_, 'size_m': getattr(X.afs, mode_name)}
+        try:
+            _Ev2(scope_).exec_stmts(chooser[:1], loc_)
+        except (_NC2, _PR2) as e_:
+            raise AnalysisError('get_afs: the table choice is outside the evaluable subset: %s' % e_)
+        pairs[mode_name] = loc_.get('db_afs')
     for mode, want in (('u16', 'self.db_afs_16'), ('u32', 'self.db_afs'), ('mm', 'self.db_afs_mm'), ('xmm', 'self.db_afs_xmm')):
         if pairs.get(mode) == want:
             R3.ok('get_afs:table:%s' % mode, sample='address mode %s -> %s' % (mode, want))
